@@ -52,6 +52,8 @@ def euler(xyz, order="xyz", units="deg"):
     """
     if not hasattr(xyz, "__iter__"):
         xyz = [xyz]
+    xyz = np.atleast_1d(np.asarray(xyz, dtype=np.float64))
+    vg.shape.check(locals(), "xyz", (-1,))
     if units == "deg":
         xyz = np.radians(xyz)
     r = np.eye(3)
